@@ -20,7 +20,7 @@ RULE = ("case = (accepted tree, fault kind, fault position); trees: GenTree.tla 
         "(seeded sample); non-trivial = >= 3 objects; distinct by JSON")
 
 VALUE = {"widget": 'toolTip: "w%d"', "menu": 'title: "m%d"', "tab": 'toolTip: "t%d"', "layout": "spacing: %d", "spacer": "orientation: Qt.Vertical", "action": 'text: "a%d"'}
-FAULTS = ["unknown_prop", "illtyped", "duplicate", "unknown_attached", "dup_attached", "unknown_type", "non_object_type", "unconsumed_attached", "nonobject_pointer"]
+FAULTS = ["unknown_prop", "illtyped", "duplicate", "unknown_attached", "dup_attached", "unknown_type", "non_object_type", "unconsumed_attached", "nonobject_pointer", "illtyped_pseudo"]
 
 
 def decorate(t):
@@ -54,8 +54,19 @@ def plant(t, extra, node, parent, fault):
     k = T.kind(fn["cls"])
     under_layout = parent is not None and T.kind(parent["cls"]) == "layout"
     if fault == "unknown_prop":
-        fextra[id(fn)].append("noSuchProperty9: 1")
-        return ft, fextra, t, rextra, "noSuchProperty9"
+        name = ["noSuchProperty9", "t\u00eate", "d\u00e9but", "a\u00f1o", "\u540d\u524d", "gr\u00f6\u00dfe", "on\u00c9v\u00e9nement", "x", "\u00e9"][pos % 9]
+        line = ["%s: 1", "font { %s: 1 }", "%s.sub: 1", "QLayout.%s: 1"][(pos // 9) % 4] % name if pos % 2 else "%s: 1" % name
+        if fn["sep"] and not line.startswith(name):
+            line = "%s: 1" % name
+        fextra[id(fn)].append(line)
+        return ft, fextra, t, rextra, name
+    if fault == "illtyped_pseudo":
+        # an ill-typed value on a pseudo property (the counts of a grid, on the axis the flow uses and on the other one)
+        if fn["cls"] not in ("QGridLayout", "MyGrid") or fn["cls"] == "MyGrid":
+            return None
+        line = ['rows: "2"', "columns: true", "rows: Qt.Horizontal", 'columns: "three"', "rows: 2.5", "columns: null"][pos % 6]
+        fextra[id(fn)].append(line)
+        return ft, fextra, t, rextra, line.split(":")[0]
     if fault == "illtyped":
         if k in ("spacer",) or fn["sep"]:
             return None
